@@ -17,6 +17,7 @@ LEVEL_TEXT = ("For each generated filter set a filter-free baseline run of the r
 LEVEL_TEXT += ' The criteria are also run under the declared quality encoding (--quality-base 33 and 64) and with N fractions exactly at a decimal cut-off, through the definition-based command-line cases shared with C14; a traceback on a generated (valid) option set is a violation.'
 LEVEL_TEXT += ' The same reads as unaligned BAM and as FASTQ under the same filters must give the same records and counts.'
 LEVEL_TEXT += ' Redirect files whose layout differs from that of the main output.'
+LEVEL_TEXT += ' --max-n also with non-integral values of 1 and more.'
 LEVEL_NOTE = ("Trusted base: refmodel predicates, independent parser, unique ids; expected-error comparisons near the threshold are skipped "
               "(and counted) unless the read has Q0 qualities only, where sums are exact.")
 VARIANTS = {"quick": ["plain"], "thorough": ["plain"]}
